@@ -108,8 +108,10 @@ def r02_2_3(ctx) -> None:
             if aad is None:
                 raise AnalysisError(f"enc.decrypt call without aad argument at {s.fn.loc(s.node)}")
             n += 1
-            res = eng.flow.slice(s.fn, aad, scope, [E])
+            res = eng.flow.slice(s.fn, aad, scope, [E], partial_ok=True)
             reenc = res.passes("json_b64encode", "json.dumps")
+            if res.exploded and not reenc:
+                raise AnalysisError(f"value-flow slice of the AAD exploded at {s.fn.short}")
             inst = f"{E.short} -> {s.fn.short}: aad of {norm(s.node)[:40]}"
             good = True
             if reenc:
@@ -167,6 +169,49 @@ def r02_2_3(ctx) -> None:
                           f"the {pname} given to the content decryption is not exactly the received {want}: has {sorted(hv)} "
                           f"foreign={sorted(repr(x) for x in foreign)[:4]}", f"= received {want}, decoded only",
                           construct=f"{pname} of {norm(s.node)[:60]} [{E.short}]")
+    # the JSON aad member takes part for *every* JSON serialization class (flattened and general alike)
+    P = eng.prog
+    base = P.cls("rfc7516.models:BaseJSONEncryption")
+    carriers = base.all_subclasses()  # the concrete serialization classes (flattened, general)
+    seen_fn: Set[int] = set()
+    m_ = 0
+    for E in entries(eng, JWE_CONSUME):
+        for fn in scope_of(eng, E):
+            if id(fn) in seen_fn or fn.name == "<module>":
+                continue
+            seen_fn.add(id(fn))
+            apps = [x for x in fn_nodes(fn) if isinstance(x, ast.Call) and norm(x.func).endswith("urlsafe_b64encode") and x.args and isinstance(x.args[0], ast.Attribute)
+                    and x.args[0].attr == "aad"]
+            if not apps:
+                continue
+            cfg = cfg_of(fn)
+            for x in apps:
+                xn = cfg.node_of(x)
+                if xn is None:
+                    continue
+                m_ += 1
+                okc = True
+                why = ""
+                for t in cfg.nodes:
+                    if t.kind != "test" or not (isinstance(t.ast, ast.Call) and isinstance(t.ast.func, ast.Name) and t.ast.func.id == "isinstance" and len(t.ast.args) == 2):
+                        continue
+                    if xn in cfg.reachable(cfg.entry, edge_filter=lambda a, b, lab, _t=t: not (a is _t and lab == "true")):
+                        continue  # does not control the append
+                    tys = t.ast.args[1].elts if isinstance(t.ast.args[1], ast.Tuple) else [t.ast.args[1]]
+                    fam = set()
+                    for ty in tys:
+                        r = eng.cg.resolve_name(fn, ty.id) if isinstance(ty, ast.Name) else None
+                        from ..program import ClassInfo as _CI
+                        if isinstance(r, _CI):
+                            fam.add(r)
+                            fam.update(r.all_subclasses())
+                    missing = [c.name for c in carriers if c not in fam]
+                    if missing:
+                        okc = False
+                        why = f"`{norm(t.ast)}` excludes {missing}"
+                ctx.check(okc, "R02.2", fn, x, f"{fn.short} :: aad member of every JSON serialization", "the JSON aad member is authenticated only for some JSON serialization classes: "
+                          f"{why} - for the others it can be altered, removed or injected without detection", "isinstance(obj, BaseJSONEncryption)", construct=f"aad class coverage in {fn.short}")
+    ctx.count("R02.2/aad-classes", m_, 1, "sites appending the JSON aad member to the AAD")
     ctx.count("R02.2/3", n, 8, "(entry, decrypt argument) slices")
 
 
@@ -438,6 +483,23 @@ def r02_6(ctx) -> None:
                 ctx.check(ok, "R02.6", fn, c2.node, f"{fn.short} :: {norm(c2.node)[:50]}",
                           "in direct mode the CEK is computed although a non-empty JWE Encrypted Key was not refused",
                           "a raise guarded by recipient.encrypted_key dominates", construct=f"direct-mode guard before {norm(c2.node)[:60]}")
+    # path form of the same obligation: assuming direct mode (every `direct_mode` test taken true), no path through the CEK
+    # recovery completes without having passed the non-empty-encrypted-key rejection - however the branches are arranged
+    for fn in scope:
+        cfg = cfg_of(fn)
+        dts = []
+        for s in eng.cg.calls_in(fn):
+            if s.kind == "property" and any(c in dm_props for c in s.callees):
+                tn = cfg.node_of(s.node)
+                if tn is not None and tn.kind == "test" and tn.ast is s.node:
+                    dts.append(tn)
+        if not dts or not any(isinstance(c2.node, ast.Call) and c2.attr in ("compute_cek", "decrypt_agreed_upon_key") for c2 in eng.cg.calls_in(fn)):
+            continue
+        rejects = [t for t in cfg.nodes if t.kind == "test" and isinstance(t.ast, ast.Attribute) and t.ast.attr == "encrypted_key" and not can_reach_exit(cfg, succ_by_label(cfg, t, "true"))]
+        n += 1
+        ok = bool(rejects) and cfg.must_pass(cfg.entry, cfg.exit, rejects, edge_filter=lambda a, b, lab, _d=dts: not (a in _d and lab == "false"))
+        ctx.check(ok, "R02.6", fn, fn.node, f"{fn.short} :: direct mode always refuses a non-empty encrypted key", "with a direct-mode algorithm (dir, ECDH-ES / ECDH-1PU direct key agreement) the CEK "
+                  "can be recovered on a path that never refuses a non-empty JWE Encrypted Key", "if recipient.encrypted_key: raise on every direct-mode path", construct=f"direct-mode paths of {fn.short}")
     ctx.count("R02.6", n, 2, "direct-mode CEK computations on the decrypt side")
 
 
